@@ -84,7 +84,31 @@ func (e *Engine) verifyBlock(blk *Block) (u *Unit) {
 	for _, fv := range fn.FreeVars {
 		ls := c.freshLeaves("fv_"+fv.Name(), fv.Type())
 		c.assert(typeInv(fv.Type(), ls))
+		if _, ok := fv.Type().Underlying().(*types.Pointer); ok {
+			c.assert(And(Gt(ls[0], IntLit(0)), Lt(ls[0], alloc0)))
+		}
 		f.bindings = append(f.bindings, ls)
+	}
+	// closure blocks: captured variables follow the parameters in clause functions
+	for _, cn := range blk.Captures {
+		found := false
+		for i, fv := range fn.FreeVars {
+			if fv.Name() != cn {
+				continue
+			}
+			found = true
+			if pt, ok := fv.Type().Underlying().(*types.Pointer); ok {
+				// captured by reference: the clause sees the variable's value at entry
+				sh := &PtrShape{Kind: pObj, Ref: f.bindings[i][0], Root: pt.Elem(), Off: 0, Typ: pt.Elem()}
+				f.argVals = append(f.argVals, c.load(st, sh))
+			} else {
+				f.argVals = append(f.argVals, f.bindings[i])
+			}
+		}
+		if !found {
+			u.Err = "contract-target-changed: closure does not capture " + cn
+			return u
+		}
 	}
 	// preconditions
 	entrySnap := snapOf(st)
